@@ -89,7 +89,7 @@ def confirm(src, prop, i):
 def run(bid, checks):
     d = os.path.join(SEEDED, bid)
     meta = json.load(open(os.path.join(d, "meta.json")))
-    checks = checks or [meta["breaks_property"]]
+    checks = checks or ([meta["breaks_property"]] if meta["breaks_property"] != "none" else ["C06", "C07", "C08", "C11", "C12", "C15", "C16"])
     # SEEDED_WORKTREE=1: apply the patch in a scratch worktree of /repo HEAD and point the checks at it with
     # VERIF_REPO (same code path: the checks copy <repo>/code_data to their scratch tree) - used while a long
     # background run reads /repo itself.  Default: apply to /repo and undo straight afterwards.
@@ -131,7 +131,7 @@ def table():
         if not os.path.exists(mp):
             continue
         m = json.load(open(mp))
-        res = ", ".join("%s:%s" % (c, "DETECTED" if r["exit"] == 1 else ("clean" if r["exit"] == 0 else "harness-error")) for c, r in sorted(m["checks_run"].items()))
+        res = ", ".join("%s:%s" % (c, ("ALARM" if m["breaks_property"] == "none" else "DETECTED") if r["exit"] == 1 else ("clean" if r["exit"] == 0 else "harness-error")) for c, r in sorted(m["checks_run"].items()))
         print("%-8s %-4s %s" % (bid, m["breaks_property"], res or "not run"))
 
 
